@@ -33,6 +33,7 @@ func (w *World) execSide(r *Replica, ri int, s *Side, point string) {
 		var txb []byte
 		kind := "garbage"
 		forged := false
+		parkable := false
 		if s.BlockTx > 0 && s.BlockTx-1 < len(w.curPlans) {
 			p := w.curPlans[s.BlockTx-1]
 			forged = p.Tampered
@@ -50,6 +51,9 @@ func (w *World) execSide(r *Replica, ri int, s *Side, point string) {
 			p := w.materialise(*s.Intent, w.curH, 900+len(w.Log)%50, newScratch())
 			forged = p.Tampered
 			txb = p.Bytes
+			if !p.Tampered && !p.Garbage && !p.SigMalleated && p.Tx != nil && p.Tx.Type != trxUnstaking {
+				parkable = true
+			}
 			if p.Tx != nil {
 				kind = kindName(p.Tx.Type)
 			}
@@ -72,6 +76,11 @@ func (w *World) execSide(r *Replica, ri int, s *Side, point string) {
 			return
 		}
 		w.logf("S %s %s check %s -> %d", r.Name, point, kind, res.Code)
+		if parkable && res.Code == 0 && len(w.Parked) < 24 {
+			// it waits in that node's mempool: a later block may carry it (after parameters, nonces or
+			// balances have moved on)
+			w.Parked = append(w.Parked, hex.EncodeToString(txb))
+		}
 	case "query":
 		w.execQuery(r, s, point)
 	case "info":
